@@ -42,7 +42,7 @@ DeepFilter ==
       sz == IF last'.call \in NewNames2 THEN <<last'.args.w, last'.args.h>> ELSE <<img.w, img.h>>
   IN n = 16 => sz \in {<<2, 2>>, <<2, 576>>}
 Filter ==
-  /\ ~(last'.call \in {"MutatePayload", "Clone", "IntoData"})        \* accessor actions are bound by the "acc" family, not replayed here
+  /\ ~(last'.call \in {"MutatePayload", "Clone", "IntoData", "Rebuild"})        \* accessor actions are bound by the "acc" family, not replayed here
   /\ JointFilter /\ PortraitFilter /\ DeepFilter
   /\ (last'.call = "RgbToYuv" => img.tc = ResolveRgbTc(last'.args.tc) /\ img.cp = ResolveRgbCp(last'.args.cp))
   /\ (last'.call \in {"NewYuv", "RgbToYuv", "LinToYuv", "XybToYuv"} =>
